@@ -248,6 +248,11 @@ def run_ghist(env, c):
                 script += "ec @@A%d@@\ne g\nec @@B%d@@\nrx a cp f snap%d\n" % (i, i, i)
                 expect.append((i, "leave", disk))
             continue
+        if st_ == "efail":
+            # a reload (:e!) whose read fails (shim: EIO while the flag file exists) keeps the buffer - and must keep the recorded time of
+            # the version the buffer came from: the version on disk was never read
+            script += "rx a touch RFLAG\ne!\nrx a rm RFLAG\n"
+            continue
         if st_ == "ext":
             ext_n += 1
             # newer than what the editor recorded, but - while the editor has not written the file itself - older than "now":
@@ -272,7 +277,8 @@ def run_ghist(env, c):
                 recorded_now = True
                 dirty = False
             expect.append((i, refused, disk))
-    r = runner.run_editor(env.paths["vi"], ["-s", "-e", "f"], script.encode() + runner.EX_TRAILER, d, want_stats=False)
+    r = runner.run_editor(env.paths["vi"], ["-s", "-e", "f"], script.encode() + runner.EX_TRAILER, d, want_stats=False,
+                          env_extra={"LD_PRELOAD": env.paths["shim"], "NVFI_RPATH": "f", "NVFI_RFLAG": os.path.join(d, "RFLAG")} if "efail" in c["steps"] else None)
     nt = any(e[1] for e in expect)
     cl = ["ghist", "refusal_expected" if nt else "no_refusal"]
     if r.timeout:
@@ -318,7 +324,7 @@ def rnd_case(draw):
             "plan": [list(p) for p in sorted(set(draw(st.lists(plan_item, min_size=2, max_size=4))))]}
 
 
-ghist_case = st.tuples(st.lists(st.sampled_from(["ext", "ext", "wother", "wother", "wother_plain", "edit", "edit", "wown", "wown", "wownf", "leave", "leave"]),
+ghist_case = st.tuples(st.lists(st.sampled_from(["ext", "ext", "wother", "wother", "wother_plain", "edit", "edit", "wown", "wown", "wownf", "leave", "leave", "efail"]),
                                  min_size=2, max_size=10), st.booleans()).map(lambda t: {"kind": "ghist", "steps": t[0], "aw": t[1]})
 
 
